@@ -77,6 +77,7 @@ type Thread struct {
 	res       opResult
 	done      bool
 	Library   bool       // spawned from inside the code under test
+	NoShared  bool       // a harness thread that never runs code under test nor looks at shared memory (a consumer)
 	hist      uint64     // hash of everything this thread has observed so far (state-key pruning)
 	held      []*muState // mutexes this thread holds (read or write), for the dynamic lockset check
 	// blockedOn describes the pending op at the end of the execution (for reports)
@@ -119,15 +120,21 @@ type Sched struct {
 	Failure   string
 	engineErr *EngineError
 	OnStep    func(s *Sched) // optional hook run before each pick (state-key pruning)
-	Prune     bool           // set by OnStep to cut the execution
-	Pruned    bool
-	Locals    map[string]any // per-execution storage for other packages (vsys, harness)
-	sysEpoch  int
-	Lockset   []string // guarded state touched without its mutex (lockset assertions)
-	touched   map[uintptr]*touchState
-	mus       []*muState
-	unstable  bool
-	stable    map[uintptr]string
+	// Shared, if set (state-key pruning), digests the memory the threads share outside the scheduler's
+	// own objects (the library's tables). A thread can read it only while it runs, i.e. between two of
+	// its scheduling points, during which nobody else runs: folding the digest into its history when it
+	// is resumed makes the history cover everything it can have read (see foldShared for when).
+	Shared   func() string
+	inShared bool
+	Prune    bool // set by OnStep to cut the execution
+	Pruned   bool
+	Locals   map[string]any // per-execution storage for other packages (vsys, harness)
+	sysEpoch int
+	Lockset  []string // guarded state touched without its mutex (lockset assertions)
+	touched  map[uintptr]*touchState
+	mus      []*muState
+	unstable bool
+	stable   map[uintptr]string
 }
 
 var cur *Sched
@@ -462,12 +469,26 @@ func (s *Sched) yield(o *op) opResult {
 		t.pend = nil
 		s.trace(t, fmt.Sprintf("%s %s (by partner) -> %d %v", kindName[o.kind], o.label, t.res.idx, t.res.ok))
 		t.fold(kindName[o.kind], o.label, t.res.idx, t.res.ok, t.res.val)
+		t.foldShared(s)
 		return t.res
 	}
 	r := s.perform(t, o)
 	t.pend = nil
 	t.fold(kindName[o.kind], o.label, r.idx, r.ok, r.val)
+	t.foldShared(s)
 	return r
+}
+
+// foldShared: shared memory is read while holding a mutex (the lock discipline the lockset checks
+// enforce on every execution), so the digest is folded each time a thread is resumed holding one and
+// when it acquires one; an access outside any mutex that the probes see (Touch) folds it as well.
+func (t *Thread) foldShared(s *Sched) {
+	if s.Shared != nil && !t.NoShared && len(t.held) > 0 && !s.inShared {
+		s.inShared = true
+		d := s.Shared()
+		s.inShared = false
+		t.fold(d)
+	}
 }
 
 // fold mixes an observation into the thread's history hash.
@@ -770,6 +791,16 @@ func Touch(m any, where string) {
 	v := reflect.ValueOf(m)
 	if !v.IsValid() || v.Kind() != reflect.Map || v.IsNil() {
 		return
+	}
+	if s.inShared {
+		return // the digest function itself (it builds maps of its own)
+	}
+	if s.Shared != nil && len(s.cur.held) == 0 {
+		// an unprotected look at shared memory: make the history say what was seen
+		s.inShared = true
+		d := s.Shared()
+		s.inShared = false
+		s.cur.fold(d)
 	}
 	key := v.Pointer()
 	if s.touched == nil {
